@@ -313,9 +313,9 @@ Proof.
   - destruct (Commit cfg (with_faults (cl_net c) f) _ node _) as [[n' st'] res] eqn:E.
     intro H. inversion H; subst. cbn [cl_net].
     destruct (Commit_net_ok _ _ _ _ _ _ _ _ E) as [K1 K2]. split; [exact K1|]. intro v. exact (K2 v).
-  - intro H. inversion H; subst. apply net_ok_refl.
-  - intro H. inversion H; subst. apply net_ok_refl.
-  - intro H. inversion H; subst. apply net_ok_refl.
+  - intro H. inversion H; subst. cbn [cl_net]. split; [reflexivity | intro v; apply rep_ok_refl].
+  - intro H. inversion H; subst. cbn [cl_net]. split; [reflexivity | intro v; apply rep_ok_refl].
+  - intro H. inversion H; subst. cbn [cl_net]. split; [reflexivity | intro v; apply rep_ok_refl].
   - destruct (RepairFollower cfg (cl_net c) l fo fr th) as [n' ok] eqn:E.
     intro H. inversion H; subst. cbn [cl_net]. eapply RepairFollower_ok; eauto.
   - intro H. inversion H; subst. cbn [cl_net]. apply net_set_ok.
